@@ -178,6 +178,18 @@ def vstep (c : VCtx) (s : VState) (cmd : String) : M VState := do
       let spn ← v.m.spanM c.T
       let off := if c.kind == "ulog" then c.T.wrap (1 + off0) else if c.kind == "urev" then c.T.wrap (spn - 1 - off0) else off0
       pure { s with mem := (v.h + off + (if c.acc == "sh" then 1000 else 0), n 2) :: s.mem }
+  | "lg" => pure (emit "calls=0")      -- construction, copy, move, assignment, swap and conversion call no accessor member
+  | "tx" =>
+    -- a throwing accessor: the access evaluates mapping(idx...) and calls accessor.access, whose exception (carrying the offset) propagates
+    match getSlot s.pool (nn 1) with
+    | none => pure (emit "none")
+    | some v =>
+      if c.acc != "th" then pure (emit "no-op") else
+      match (if a.getD 2 "" == "br1" && v.m.extents.length != 1 then none else parseTy (a.getD 3 "")) with
+      | none => pure (emit "no-form")
+      | some S => do
+        let off0 ← accessOffset c.T S .pack v.m (l 4)
+        pure (emit s!"threw={ITy.u64.wrap off0}")
   | "df" =>
     -- cells whose content differs from the initial pattern 1000000+i, ascending by address
     let addrs := (s.mem.map (·.1)).eraseDups
